@@ -72,7 +72,9 @@ def hand_specs():
 
 
 # Minimal inputs for breakages of the generator that the `rt` preset steers away from (reported by the author of the
-# spec generator and re-found here). Each must stay reachable: they are always run.
+# spec generator and re-found here). Each must stay reachable: they are always run. Several have been repaired in the
+# tree under test since (alias order below List / Map / ?, alias validator names, three-namespace cycles - now refused
+# by the compiler); those stay as regression inputs.
 DEFECT_SEEDS = [
     ('string-default-with-blank', [('n.stone', 'namespace n\nstruct S\n    f String = "a b"\n')]),
     ('annotation-type-without-params', [('n.stone', 'namespace n\nannotation_type T\n    "doc"\n')]),
@@ -85,6 +87,8 @@ DEFECT_SEEDS = [
     ('alias-order-map', [('n.stone', 'namespace n\nalias A = Map(String, Z)\nalias Z = String\n')]),
     ('alias-name-AS', [('n.stone', 'namespace n\nalias AS = String\nstruct S\n    f AS\n')]),
     ('alias-name-HTTPCode', [('n.stone', 'namespace n\nalias HTTPCode = Int32\nstruct S\n    f HTTPCode\n')]),
+    ('class-alias-name-default', [('n.stone', 'namespace n\nunion U\n    x\n    y\nalias HTTPUnion = U\nstruct S\n    f HTTPUnion = x\n')]),
+    ('class-alias-name-alias-of-alias', [('n.stone', 'namespace n\nstruct T\n    g String\nalias HTTPAlias = T\nalias Z = HTTPAlias\n')]),
     ('subtypes-root-name-HTTPRoot', [('n.stone', 'namespace n\nstruct HTTPRoot\n    union\n        x HTTPLeaf\n'
                                                  'struct HTTPLeaf extends HTTPRoot\n    f String\n')]),
     ('three-namespace-cycle', [('a.stone', 'namespace na\nimport nb\nstruct A\n    f nb.B\n'),
@@ -271,7 +275,7 @@ class _Reducer:
             return
         if isinstance(node, ast.Call):
             f = node.func
-            if isinstance(f, ast.Name) and f.id == 'TagRef':
+            if isinstance(f, ast.Name) and f.id == 'TagRef' and node.args and isinstance(node.args[0], ast.Call):
                 # a printed `TagRef(Union('ns.U', [UnionField(...), ...]), 'tag')`: the model tracks the three
                 # constructor names every such text starts with (a spec may itself define a type called TagRef)
                 out.append((None, 'TagRef', None))
@@ -470,8 +474,10 @@ def classify(pk, stage, exc, text):
             return 'import-cycle'
         for ns in api.namespaces.values():
             for a in ns.aliases:
-                if fmt_class(a.name) != a.name and missing in (fmt_class(a.name) + '_validator', fmt_class(a.name)):
-                    return 'alias-name-not-fixed-by-fmt_class'
+                if fmt_class(a.name) != a.name and missing == fmt_class(a.name):
+                    return 'class-alias-name-not-fixed-by-fmt_class'
+                if fmt_class(a.name) != a.name and missing == fmt_class(a.name) + '_validator':
+                    return 'alias-validator-name-not-fixed-by-fmt_class'
             for dt in ns.data_types:
                 if isinstance(dt, Struct) and dt.has_enumerated_subtypes() and fmt_class(dt.name) != dt.name \
                         and missing == dt.name:
@@ -705,6 +711,19 @@ def introspect(ck, pk, n_values):
                     if not isinstance(desc, bb.Attribute):
                         bad('field-attribute-missing', '%s.%s' % (ref, f.name), repr(desc))
                         continue
+                    # readable before anything is set: a declared default is what an unset field reads as
+                    if getattr(f, 'has_default', False) and not isinstance(f.data_type, Nullable):
+                        from stone.ir.data_types import TagRef
+                        try:
+                            got = getattr(obj, attr)
+                            if isinstance(f.default, TagRef):
+                                tagm = getattr(got, 'is_' + fmt_func(f.default.tag_name), None)
+                                if not isinstance(got, bb.Union) or not callable(tagm) or not tagm():
+                                    bad('field-default-read', '%s.%s' % (ref, f.name), repr(got))
+                            elif not (got == f.default and isinstance(got, bool) == isinstance(f.default, bool)):
+                                bad('field-default-read', '%s.%s' % (ref, f.name), '%r != %r' % (got, f.default))
+                        except Exception as e:  # noqa: BLE001
+                            bad('field-default-read', '%s.%s' % (ref, f.name), '%s: %s' % (type(e).__name__, e))
                     for _ in range(n_values):
                         okv, val = value_for(f.data_type)
                         if not okv:
@@ -773,7 +792,7 @@ def introspect(ck, pk, n_values):
                             bad('constructor-method-call', where, '%s: %s' % (type(e).__name__, e))
         for a in ns.aliases:
             ck.case(('alias', pk.label, ns.name, a.name))
-            v = getattr(mod, a.name + '_validator', None)
+            v = getattr(mod, fmt_class(a.name) + '_validator', None)
             if v is None or not isinstance(v, bv.Validator):
                 bad('alias-validator-missing', '%s.%s' % (ns.name, a.name), repr(v))
                 continue
